@@ -12,6 +12,10 @@ ATOMS = [None, True, False, 0, -1, 2 ** 70, 0.1, -2.5e-7, 1e308, "", "a", "é ",
 SMALL = [None, True, 0, 0.1, "", "a"]
 KEYS = ["", "k", "é", "1"]
 NAMES = ["C26_NEW_%d", "A", "ENTRY_SIGNAL", "SEARCH_FOR_SUPER_SIGNAL", "", "a b", "événement", "9", "None"]
+# names that are also attributes of the registry object (an OrderedDict subclass): a lookup that goes through attribute
+# access instead of the mapping would find the attribute, not the signal
+SHADOW = ["keys", "values", "items", "get", "pop", "clear", "update", "append", "name_for_signal", "is_inner_signal",
+          "highest_inner_signal", "__class__", "__dict__", "move_to_end", "C26_NEW_%d"]
 
 
 def containers(elems, keys):
@@ -61,8 +65,10 @@ def run(tier):
     shapes = set()
     samples = []
     ctr = 0
-    for payload in payloads(depth):
-        for nm in NAMES:
+    work = [(payload, nm) for payload in payloads(depth) for nm in NAMES]
+    work += [(payload, nm) for payload in list(ATOMS) + [[], {}, [0, "a"], {"k": None}] for nm in SHADOW]
+    for payload, nm in work:
+        if True:
             if "%d" in nm:
                 ctr += 1
                 name = nm % ctr          # a name this process has never seen
@@ -102,7 +108,8 @@ def run(tier):
                     "traces_validated_against_impl": n,
                     "rule": "every payload of the grammar (atoms %d kinds; lists / string-keyed dicts of size <= 2; nesting depth <= %d) "
                             "x %d signal-name kinds (new name arriving as text from another process, known, inner, empty, "
-                            "non-identifier, non-ascii); distinct = (name kind, payload shape)" % (len(ATOMS), depth, len(NAMES)),
+                            "non-identifier, non-ascii) + %d names that shadow attributes of the registry object x atoms; "
+                            "distinct = (name kind, payload shape)" % (len(ATOMS), depth, len(NAMES), len(SHADOW)),
                     "samples": samples, "exhaustive": True}
     res.assumptions = ["payload equality is type-strict (1 != True, 1 != 1.0)"]
     return res
